@@ -13,6 +13,9 @@
 #include <llvm/IR/DataLayout.h>
 #include <llvm/IR/Operator.h>
 #include <llvm/IR/CFG.h>
+#include <llvm/IR/DebugInfoMetadata.h>
+#include <llvm/IR/Dominators.h>
+#include <llvm/Analysis/LoopInfo.h>
 #include <llvm/IRReader/IRReader.h>
 #include <llvm/Support/SourceMgr.h>
 #include <llvm/Support/raw_ostream.h>
@@ -372,9 +375,28 @@ static void emitPhiCopies(const BasicBlock *from, const BasicBlock *to, const st
   for (auto *p : phis) F->body << ind << F->names[p] << " = " << F->names[p] << "_in;\n";
 }
 
+static LoopInfo *curLI = nullptr;
 static void emitGoto(const BasicBlock *from, const BasicBlock *to, const string &ind) {
   emitPhiCopies(from, to, ind);
-  F->body << ind << "goto bb" << F->bbId[to] << ";\n";
+  F->body << ind << "goto bb" << F->bbId[to] << ";";
+  if (F->bbId[to] <= F->bbId[from]) {
+    // backward goto = one cbmc loop; tag it with the source function the loop comes from (inlined scope) for --unwindset resolution
+    string sf = "?", file = "?"; unsigned line = 0;
+    DebugLoc dl = from->getTerminator()->getDebugLoc();
+    if (!dl) for (const Instruction &ii : *from) if (ii.getDebugLoc()) dl = ii.getDebugLoc();
+    if (!dl) for (const Instruction &ii : *to) if (ii.getDebugLoc()) { dl = ii.getDebugLoc(); break; }
+    if (dl) {
+      if (auto *sc = dyn_cast_or_null<DILocalScope>(dl.getScope())) {
+        if (auto *sp = sc->getSubprogram()) sf = sp->getName().str();
+        file = sc->getFilename().str();
+      }
+      line = dl.getLine();
+    }
+    size_t p = file.find_last_of('/'); if (p != string::npos) file = file.substr(p + 1);
+    unsigned depth = curLI ? curLI->getLoopDepth(to) : 0;
+    F->body << " /*LOOP sf=" << sanitize(sf) << " file=" << file << " line=" << line << " depth=" << depth << "*/";
+  }
+  F->body << "\n";
 }
 
 static bool curFrozen = false;
@@ -528,7 +550,13 @@ static void emitInst(const Instruction &I) {
       string a = op(0), c = op(1);
       if (ot->isPointerTy()) {
         if (ic->isEquality()) { a = "(void*)" + a; c = "(void*)" + c; }
-        else { a = "(uintptr_t)" + a; c = "(uintptr_t)" + c; }
+        else {
+          const char *nm = (ic->getPredicate() == ICmpInst::ICMP_ULT || ic->getPredicate() == ICmpInst::ICMP_SLT) ? "LT" :
+                           (ic->getPredicate() == ICmpInst::ICMP_ULE || ic->getPredicate() == ICmpInst::ICMP_SLE) ? "LE" :
+                           (ic->getPredicate() == ICmpInst::ICMP_UGT || ic->getPredicate() == ICmpInst::ICMP_SGT) ? "GT" : "GE";
+          b << lhs << "(uint8_t)LL_PTR_" << nm << "(" << a << ", " << c << ");\n";
+          break;
+        }
       } else if (ic->isSigned()) { unsigned w = ot->getIntegerBitWidth(); a = sx(a, w); c = sx(c, w); }
       const char *o;
       switch (ic->getPredicate()) {
@@ -690,6 +718,7 @@ static string fnProto(const Function &fn) {
 
 static void emitFunction(const Function &fn) {
   FnCtx ctx; F = &ctx;
+  DominatorTree DT(const_cast<Function&>(fn)); LoopInfo LI(DT); curLI = &LI;
   curFrozen = optFrozen && fn.getName().find("vh_") == StringRef::npos && !fn.getName().startswith("ll_");
   unsigned i = 0;
   for (const Argument &a : fn.args()) ctx.names[&a] = "a" + std::to_string(i++);
